@@ -1,3 +1,4 @@
+import CpModel.Gen.PipelineTables
 /-
   Model of `cherrypy._cprequest.Hook`, `HookMap.run`, `HookMap.run_hooks`, transcribed statement
   by statement.  Core Lean only.  Shared by C09 (hook order / fail-safe / end hooks) and C01.
@@ -8,10 +9,11 @@
     `raise HTTPRedirect(url, c)`, `raise InternalRedirect(page t)`, or raises some other `Exception`.
     `KeyboardInterrupt` / `SystemExit` are excluded by the properties.
   * what actually emerges from such a `raise` statement (`Out.raised`): the constructors validate
-    their status argument — `HTTPError(c)` with `c` outside 100..599 becomes `HTTPError(500)`
-    (`valid_status` raises `ValueError`, the constructor re-raises its own class with 500), with
-    `100 ≤ c < 400` it is a plain `ValueError`; `HTTPRedirect(url, c)` with `c` outside 300..399 is a
-    plain `ValueError`.
+    their status argument — `HTTPError(c)` with `c` rejected by `valid_status` becomes `HTTPError(500)`
+    (the constructor re-raises its own class with 500), with an accepted `c` outside 400..599 it is a
+    plain `ValueError`; `HTTPRedirect(url, c)` with `c` outside 300..399 is a plain `ValueError`.  The
+    ranges are the generated tables `CpModel.Gen.Pipeline.*` (obtained by running the constructors over
+    0..1199 on every check run).
   * a hook = identity + `priority` + `failsafe` + outcome (the same on every call).
   * `sorted(self[point])` with `Hook.__lt__` comparing priorities only: a stable insertion sort
     (structural, so it reduces in the kernel).
@@ -24,6 +26,10 @@
   (`cherrypy.log(traceback=True)` — assumed not to raise).
 -/
 namespace CpModel.Hooks
+open CpModel.Gen.Pipeline
+
+/-- membership in a list of inclusive ranges (the generated tables) -/
+def inRanges (rs : List (Nat × Nat)) (n : Nat) : Bool := rs.any fun r => r.1 ≤ n && n ≤ r.2
 
 /-- What a user callback does. -/
 inductive Out where
@@ -46,11 +52,11 @@ inductive Exn where
 def Out.raised : Out → Option Exn
   | .ok => none
   | .httpError c =>
-    if c < 100 ∨ 599 < c then some (.httpError 500)     -- ValueError in valid_status → cls(500, msg)
-    else if c < 400 then some .exc                       -- ValueError('status must be between 400 and 599.')
-    else some (.httpError c)
+    if inRanges httpErrorOkRanges c then some (.httpError c)
+    else if inRanges httpErrorExcRanges c then some .exc    -- ValueError('status must be between 400 and 599.')
+    else some (.httpError httpErrorFallbackCode)             -- ValueError in valid_status → cls(500, msg)
   | .httpRedirect c =>
-    if 300 ≤ c ∧ c ≤ 399 then some (.httpRedirect c) else some .exc
+    if inRanges httpRedirectOkRanges c then some (.httpRedirect c) else some .exc
   | .internalRedirect t => some (.internalRedirect t)
   | .exc => some .exc
 
